@@ -10,6 +10,9 @@ package main
 //   sched   — a second binary built from an INSTRUMENTED copy of memmap.go / mem/file.go
 //             (c04_instrument.go) whose lock operations are yield points of a cooperative
 //             scheduler: schedules are enumerated (DFS) or sampled, and are replayable.
+//             Two modes: depth-0 (switch only with no lock held) and lock-aware (every lock
+//             acquisition is a switching point, acquisitions are try-locks under the control of the
+//             scheduler, blocked goroutines, deadlock detection, preemption-bounded DFS).
 // Go-side oracles (no model involved): two winners among concurrent Mkdir / O_CREATE|O_EXCL calls
 // of one name, Mkdir / O_CREATE returning not-exist, torn reads, results changing on unrelated
 // paths.  At the end the harness runs ../ocaml/modelrun on its own histories and turns every
